@@ -1,1 +1,1568 @@
-fn main() { println!("# {{}}"); }
+//! C11 harness: unified key encodings round-trip and derived addresses belong to their keys.
+//!
+//! Generates real keys (seeds x ZIP 32 accounts x networks), runs the public API of `zcash_keys`
+//! at USK / UFVK / UIVK level on every component subset reachable through the public
+//! constructors, and prints one Coq `case` term per executed call together with the oracle table
+//! the model needs (real values of the external cryptography, obtained by calling the external
+//! crates' own functions directly, never through `zcash_keys`).
+use std::collections::BTreeSet;
+
+use bech32::primitives::decode::CheckedHrpstring;
+use bech32::Hrp;
+use vcommon::*;
+use zcash_address::unified::{self, Bech32mZip316, Container, Encoding, Fvk, Ivk, Ufvk, Uivk};
+use zcash_keys::keys::{
+    AddressGenerationError, DecodingError, Era, ReceiverRequirement, ReceiverRequirementError,
+    ReceiverRequirements, UnifiedAddressRequest, UnifiedFullViewingKey, UnifiedIncomingViewingKey,
+    UnifiedSpendingKey,
+};
+use zcash_keys::address::UnifiedAddress;
+use zcash_protocol::consensus::{
+    BlockHeight, MainNetwork, NetworkType, NetworkUpgrade, Parameters, TestNetwork,
+};
+use zcash_transparent::address::TransparentAddress;
+use zcash_transparent::keys::{
+    AccountPrivKey, AccountPubKey, ExternalIvk, IncomingViewingKey as _, NonHardenedChildIndex,
+};
+use zip32::{AccountId, DiversifierIndex};
+
+// ---------------------------------------------------------------------------------------------
+// networks
+
+#[derive(Clone, Copy, PartialEq, Eq, Debug)]
+enum Net {
+    Main,
+    Test,
+    Reg,
+}
+impl Parameters for Net {
+    fn network_type(&self) -> NetworkType {
+        match self {
+            Net::Main => NetworkType::Main,
+            Net::Test => NetworkType::Test,
+            Net::Reg => NetworkType::Regtest,
+        }
+    }
+    fn activation_height(&self, nu: NetworkUpgrade) -> Option<BlockHeight> {
+        match self {
+            Net::Main => MainNetwork.activation_height(nu),
+            Net::Test => TestNetwork.activation_height(nu),
+            Net::Reg => None,
+        }
+    }
+}
+const NETS: [Net; 3] = [Net::Main, Net::Test, Net::Reg];
+fn net_id(n: Net) -> u32 {
+    match n {
+        Net::Main => 0,
+        Net::Test => 1,
+        Net::Reg => 2,
+    }
+}
+fn nt_id(n: NetworkType) -> u32 {
+    match n {
+        NetworkType::Main => 0,
+        NetworkType::Test => 1,
+        NetworkType::Regtest => 2,
+    }
+}
+
+// ---------------------------------------------------------------------------------------------
+// model-side values and their Coq syntax
+
+type B = Vec<u8>;
+fn hx(b: &[u8]) -> String {
+    format!("(hx \"{}\")", hex(b))
+}
+fn sx(o: &Option<B>) -> String {
+    match o {
+        Some(b) => format!("(sx \"{}\")", hex(b)),
+        None => "None".into(),
+    }
+}
+fn p_items(l: &[(u32, B)]) -> String {
+    list(l.iter().map(|(t, d)| format!("(it {} \"{}\")", t, hex(d))))
+}
+
+#[derive(Clone, PartialEq, Eq, Debug)]
+struct MUsk {
+    t: B,
+    s: B,
+    o: B,
+}
+#[derive(Clone, PartialEq, Eq, Debug, Default)]
+struct MKey {
+    // UFVK or UIVK
+    t: Option<B>,
+    s: Option<B>,
+    o: Option<B>,
+    unk: Vec<(u32, B)>,
+}
+fn p_usk(k: &MUsk) -> String {
+    format!("(mkUsk {} {} {})", hx(&k.t), hx(&k.s), hx(&k.o))
+}
+fn p_ufvk(k: &MKey) -> String {
+    format!("(mkUfvk {} {} {} {})", sx(&k.t), sx(&k.s), sx(&k.o), p_items(&k.unk))
+}
+fn p_uivk(k: &MKey) -> String {
+    format!("(mkUivk {} {} {} {})", sx(&k.t), sx(&k.s), sx(&k.o), p_items(&k.unk))
+}
+
+fn rq(r: ReceiverRequirement) -> &'static str {
+    match r {
+        ReceiverRequirement::Require => "Require",
+        ReceiverRequirement::Allow => "Allow",
+        ReceiverRequirement::Omit => "Omit",
+    }
+}
+const RQS: [ReceiverRequirement; 3] =
+    [ReceiverRequirement::Require, ReceiverRequirement::Allow, ReceiverRequirement::Omit];
+fn p_reqs(r: &ReceiverRequirements) -> String {
+    format!("(mkReqs {} {} {})", rq(r.orchard()), rq(r.sapling()), rq(r.p2pkh()))
+}
+fn p_request(r: &UnifiedAddressRequest) -> String {
+    match r {
+        UnifiedAddressRequest::AllAvailableKeys => "AllAvailableKeys".into(),
+        UnifiedAddressRequest::Custom(q) => format!("(Custom {})", p_reqs(q)),
+    }
+}
+fn p_rrerr(e: ReceiverRequirementError) -> &'static str {
+    match e {
+        ReceiverRequirementError::Conflict => "(Err Conflict)",
+        ReceiverRequirementError::NoShieldedReceiver => "(Err NoShieldedReceiver)",
+    }
+}
+fn p_tc(t: unified::Typecode) -> String {
+    match t {
+        unified::Typecode::P2pkh => "TcP2pkh".into(),
+        unified::Typecode::P2sh => "TcP2sh".into(),
+        unified::Typecode::Sapling => "TcSapling".into(),
+        unified::Typecode::Orchard => "TcOrchard".into(),
+        unified::Typecode::Unknown(n) => format!("(TcUnknown {})", n),
+    }
+}
+fn p_aerr(e: &AddressGenerationError) -> String {
+    let di = |j: &DiversifierIndex| u128::from(*j);
+    match e {
+        AddressGenerationError::InvalidTransparentChildIndex(j) => {
+            format!("(Err (InvalidTransparentChildIndex {}))", di(j))
+        }
+        AddressGenerationError::InvalidSaplingDiversifierIndex(j) => {
+            format!("(Err (InvalidSaplingDiversifierIndex {}))", di(j))
+        }
+        AddressGenerationError::DiversifierSpaceExhausted => "(Err DiversifierSpaceExhausted)".into(),
+        AddressGenerationError::ReceiverTypeNotSupported(t) => {
+            format!("(Err (ReceiverTypeNotSupported {}))", p_tc(*t))
+        }
+        AddressGenerationError::KeyNotAvailable(t) => format!("(Err (KeyNotAvailable {}))", p_tc(*t)),
+        AddressGenerationError::ShieldedReceiverRequired => "(Err ShieldedReceiverRequired)".into(),
+        // not produced by the modelled functions: printed as a value the model never yields
+        _ => "(Err (KeyNotAvailable (TcUnknown 999)))".into(),
+    }
+}
+fn p_ua(ua: &UnifiedAddress) -> String {
+    let o = ua.orchard().map(|a| a.to_raw_address_bytes().to_vec());
+    let s = ua.sapling().map(|a| a.to_bytes().to_vec());
+    let t = ua.transparent().map(|a| match a {
+        TransparentAddress::PublicKeyHash(h) => h.to_vec(),
+        TransparentAddress::ScriptHash(h) => {
+            let mut v = h.to_vec();
+            v.push(0xff); // never produced by derivation; makes the case mismatch
+            v
+        }
+    });
+    format!("(mkUa {} {} {})", sx(&o), sx(&s), sx(&t))
+}
+fn p_addr_res(r: Option<Result<UnifiedAddress, AddressGenerationError>>) -> String {
+    match r {
+        None => PANIC.into(),
+        Some(Ok(ua)) => ok(p_ua(&ua)),
+        Some(Err(e)) => p_aerr(&e),
+    }
+}
+fn p_find_res(r: Option<Result<(UnifiedAddress, DiversifierIndex), AddressGenerationError>>) -> String {
+    match r {
+        None => PANIC.into(),
+        Some(Ok((ua, j))) => ok(format!("({}, {})", p_ua(&ua), u128::from(j))),
+        Some(Err(e)) => p_aerr(&e),
+    }
+}
+fn p_decerr(e: &DecodingError) -> String {
+    match e {
+        DecodingError::ReadError(s) => format!(
+            "(ReadError {})",
+            match *s {
+                "era" => 0,
+                "typecode" => 1,
+                "key length" => 2,
+                _ => 9,
+            }
+        ),
+        DecodingError::EraInvalid => "EraInvalid".into(),
+        DecodingError::EraMismatch(_) => "EraMismatch".into(),
+        DecodingError::TypecodeInvalid => "TypecodeInvalid".into(),
+        DecodingError::LengthInvalid => "LengthInvalid".into(),
+        DecodingError::LengthMismatch(t, l) => format!("(LengthMismatch {} {})", p_tc(*t), l),
+        DecodingError::InsufficientData(t) => format!("(InsufficientData {})", p_tc(*t)),
+        DecodingError::KeyDataInvalid(t) => format!("(KeyDataInvalid {})", p_tc(*t)),
+    }
+}
+fn p_parseerr(e: &unified::ParseError) -> String {
+    use unified::ParseError::*;
+    match e {
+        BothP2phkAndP2sh => "BothP2phkAndP2sh".into(),
+        DuplicateTypecode(t) => format!("(DuplicateTypecode {})", u32::from(*t)),
+        InvalidTypecodeValue(v) => format!("(InvalidTypecodeValue {})", v),
+        InvalidEncoding(_) => "InvalidEncoding".into(),
+        InvalidTypecodeOrder => "InvalidTypecodeOrder".into(),
+        OnlyTransparent => "OnlyTransparent".into(),
+        NotUnified => "NotUnified".into(),
+        UnknownPrefix(_) => "UnknownPrefix".into(),
+    }
+}
+
+fn j11(j: u128) -> [u8; 11] {
+    let mut b = [0u8; 11];
+    b.copy_from_slice(&j.to_le_bytes()[..11]);
+    b
+}
+fn di(j: u128) -> DiversifierIndex {
+    DiversifierIndex::from(j11(j))
+}
+
+// ---------------------------------------------------------------------------------------------
+// the external primitives, called directly (oracle values)
+
+fn arr<const N: usize>(b: &[u8]) -> Option<[u8; N]> {
+    b.try_into().ok()
+}
+fn ct<T>(c: subtle::CtOption<T>) -> Option<T> {
+    Option::from(c)
+}
+
+fn orc_o_sk_fvk(sk: &[u8]) -> Option<B> {
+    let k = ct(orchard::keys::SpendingKey::from_bytes(arr(sk)?))?;
+    Some(orchard::keys::FullViewingKey::from(&k).to_bytes().to_vec())
+}
+fn orc_s_sk_fvk(sk: &[u8]) -> Option<B> {
+    let k = sapling::zip32::ExtendedSpendingKey::from_bytes(sk).ok()?;
+    Some(k.to_diversifiable_full_viewing_key().to_bytes().to_vec())
+}
+fn orc_t_sk_pk(sk: &[u8]) -> Option<B> {
+    Some(AccountPrivKey::from_bytes(sk)?.to_account_pubkey().serialize())
+}
+fn orc_o_fvk_ivk(fvk: &[u8]) -> Option<B> {
+    let k = orchard::keys::FullViewingKey::from_bytes(&arr(fvk)?)?;
+    Some(k.to_ivk(orchard::keys::Scope::External).to_bytes().to_vec())
+}
+fn orc_s_fvk_ivk(fvk: &[u8]) -> Option<B> {
+    let k = sapling::zip32::DiversifiableFullViewingKey::from_bytes(&arr(fvk)?)?;
+    Some(k.to_external_ivk().to_bytes().to_vec())
+}
+/// None: the public key does not decode; Some(None): derivation fails.
+fn orc_t_pk_ivk(pk: &[u8]) -> Option<Option<B>> {
+    let k = AccountPubKey::deserialize(&arr(pk)?).ok()?;
+    Some(k.derive_external_ivk().ok().map(|i| i.serialize()))
+}
+fn orc_o_addr(ivk: &[u8], j: u128) -> Option<B> {
+    let k = ct(orchard::keys::IncomingViewingKey::from_bytes(&arr(ivk)?))?;
+    Some(k.address_at(orchard::keys::DiversifierIndex::from(j11(j))).to_raw_address_bytes().to_vec())
+}
+fn orc_s_addr(ivk: &[u8], j: u128) -> Option<Option<B>> {
+    let k = ct(sapling::zip32::IncomingViewingKey::from_bytes(&arr(ivk)?))?;
+    Some(k.address_at(di(j)).map(|a| a.to_bytes().to_vec()))
+}
+fn orc_t_addr(ivk: &[u8], i: u32) -> Option<Option<B>> {
+    let k = ExternalIvk::deserialize(&arr(ivk)?).ok()?;
+    let idx = NonHardenedChildIndex::from_index(i)?;
+    Some(k.derive_address(idx).ok().and_then(|a| match a {
+        TransparentAddress::PublicKeyHash(h) => Some(h.to_vec()),
+        _ => None,
+    }))
+}
+
+fn p_ores(r: Option<Option<B>>) -> String {
+    match r {
+        None => "OPanic".into(),
+        Some(None) => "ONone".into(),
+        Some(Some(b)) => format!("(osome \"{}\")", hex(&b)),
+    }
+}
+/// primitive decoders (function ids 10..18), each under catch_unwind
+fn decoder(f: u32, b: &[u8]) -> Option<Option<B>> {
+    let b = b.to_vec();
+    catch(move || match f {
+        10 => arr(&b).and_then(|a| ct(orchard::keys::SpendingKey::from_bytes(a))).map(|k| k.to_bytes().to_vec()),
+        11 => sapling::zip32::ExtendedSpendingKey::from_bytes(&b).ok().map(|k| k.to_bytes().to_vec()),
+        12 => AccountPrivKey::from_bytes(&b).map(|k| k.to_bytes()),
+        13 => arr(&b).and_then(|a| orchard::keys::FullViewingKey::from_bytes(&a)).map(|k| k.to_bytes().to_vec()),
+        14 => arr(&b)
+            .and_then(|a| sapling::zip32::DiversifiableFullViewingKey::from_bytes(&a))
+            .map(|k| k.to_bytes().to_vec()),
+        15 => arr(&b).and_then(|a| AccountPubKey::deserialize(&a).ok()).map(|k| k.serialize()),
+        16 => arr(&b).and_then(|a| ct(orchard::keys::IncomingViewingKey::from_bytes(&a))).map(|k| k.to_bytes().to_vec()),
+        17 => arr(&b)
+            .and_then(|a| ct(sapling::zip32::IncomingViewingKey::from_bytes(&a)))
+            .map(|k| k.to_bytes().to_vec()),
+        18 => arr(&b).and_then(|a| ExternalIvk::deserialize(&a).ok()).map(|k| k.serialize()),
+        _ => None,
+    })
+}
+
+/// Oracle table under construction (deduplicated entries in Coq syntax).
+#[derive(Default)]
+struct Tab {
+    seen: BTreeSet<(u32, B, u128)>,
+    out: Vec<String>,
+}
+impl Tab {
+    fn add(&mut self, f: u32, k: &[u8], i: u128, r: String) {
+        if self.seen.insert((f, k.to_vec(), i)) {
+            self.out.push(format!("oe {} \"{}\" {} {}", f, hex(k), i, r));
+        }
+    }
+    fn some(&mut self, f: u32, k: &[u8], i: u128, v: Option<B>) {
+        // a primitive that could not even be evaluated leaves no entry (the model then sees poison)
+        if let Some(b) = v {
+            self.add(f, k, i, format!("(osome \"{}\")", hex(&b)));
+        }
+    }
+    fn opt(&mut self, f: u32, k: &[u8], i: u128, v: Option<Option<B>>) {
+        if let Some(o) = v {
+            self.add(f, k, i, p_ores(Some(o)));
+        }
+    }
+    fn dec(&mut self, f: u32, k: &[u8]) -> Option<B> {
+        let r = decoder(f, k);
+        self.add(f, k, 0, p_ores(r.clone()));
+        r.flatten()
+    }
+    fn usk(&mut self, k: &MUsk) -> MKey {
+        let o = orc_o_sk_fvk(&k.o);
+        let s = orc_s_sk_fvk(&k.s);
+        let t = orc_t_sk_pk(&k.t);
+        self.some(1, &k.o, 0, o.clone());
+        self.some(2, &k.s, 0, s.clone());
+        self.some(3, &k.t, 0, t.clone());
+        MKey { t, s, o, unk: vec![] }
+    }
+    fn ufvk(&mut self, k: &MKey) -> MKey {
+        let mut r = MKey::default();
+        if let Some(o) = &k.o {
+            r.o = orc_o_fvk_ivk(o);
+            self.some(4, o, 0, r.o.clone());
+        }
+        if let Some(s) = &k.s {
+            r.s = orc_s_fvk_ivk(s);
+            self.some(5, s, 0, r.s.clone());
+        }
+        if let Some(t) = &k.t {
+            let v = orc_t_pk_ivk(t);
+            self.opt(6, t, 0, v.clone());
+            r.t = v.flatten();
+        }
+        r
+    }
+    /// address oracles of an IVK at index j; returns whether Sapling is valid there
+    fn uivk_at(&mut self, k: &MKey, j: u128) -> Option<bool> {
+        if let Some(o) = &k.o {
+            self.some(7, o, j, orc_o_addr(o, j));
+        }
+        let mut sv = None;
+        if let Some(s) = &k.s {
+            let v = orc_s_addr(s, j);
+            sv = v.as_ref().map(|x| x.is_some());
+            self.opt(8, s, j, v);
+        }
+        if let Some(t) = &k.t {
+            if j < (1u128 << 31) {
+                self.opt(9, t, j, orc_t_addr(t, j as u32));
+            }
+        }
+        sv
+    }
+    fn print(&self) -> String {
+        format!("[{}]", self.out.join("; "))
+    }
+}
+
+// ---------------------------------------------------------------------------------------------
+// real keys -> model values
+
+fn m_usk(k: &UnifiedSpendingKey) -> MUsk {
+    MUsk { t: k.transparent().to_bytes(), s: k.sapling().to_bytes().to_vec(), o: k.orchard().to_bytes().to_vec() }
+}
+fn unbech(s: &str) -> Option<(String, B)> {
+    let p = CheckedHrpstring::new::<Bech32mZip316>(s).ok()?;
+    Some((p.hrp().as_str().to_string(), p.byte_iter().collect()))
+}
+fn unjumble(b: &[u8]) -> Option<B> {
+    f4jumble::f4jumble_inv(b).ok()
+}
+fn rebech(hrp: &str, raw: &[u8]) -> Option<String> {
+    let j = f4jumble::f4jumble(raw).ok()?;
+    bech32::encode::<Bech32mZip316>(Hrp::parse(hrp).ok()?, &j).ok()
+}
+/// (hrp, un-jumbled payload) of an encoded string, through the primitive crates
+fn enc_obs(s: &str) -> Option<(B, B)> {
+    let (h, p) = unbech(s)?;
+    Some((h.into_bytes(), unjumble(&p)?))
+}
+fn p_enc(e: &(B, B)) -> String {
+    format!("({}, {})", hx(&e.0), hx(&e.1))
+}
+fn fvk_unknown(s: &str) -> Vec<(u32, B)> {
+    match Ufvk::decode(s) {
+        Ok((_, u)) => u
+            .items_as_parsed()
+            .iter()
+            .filter_map(|i| match i {
+                Fvk::Unknown { typecode, data } => Some((*typecode, data.clone())),
+                _ => None,
+            })
+            .collect(),
+        Err(_) => vec![(999_999_999, vec![])],
+    }
+}
+fn ivk_unknown(s: &str) -> Vec<(u32, B)> {
+    match Uivk::decode(s) {
+        Ok((_, u)) => u
+            .items_as_parsed()
+            .iter()
+            .filter_map(|i| match i {
+                Ivk::Unknown { typecode, data } => Some((*typecode, data.clone())),
+                _ => None,
+            })
+            .collect(),
+        Err(_) => vec![(999_999_999, vec![])],
+    }
+}
+/// model value of a real UFVK; `enc` is its encoding when it has one (unknown items are only
+/// observable there)
+fn m_ufvk(k: &UnifiedFullViewingKey, enc: Option<&str>) -> MKey {
+    MKey {
+        t: k.transparent().map(|t| t.serialize()),
+        s: k.sapling().map(|s| s.to_bytes().to_vec()),
+        o: k.orchard().map(|o| o.to_bytes().to_vec()),
+        unk: enc.map(fvk_unknown).unwrap_or_default(),
+    }
+}
+fn m_uivk(k: &UnifiedIncomingViewingKey, enc: Option<&str>) -> MKey {
+    MKey {
+        t: k.transparent().as_ref().map(|t| t.serialize()),
+        s: k.sapling().as_ref().map(|s| s.to_bytes().to_vec()),
+        o: k.orchard().as_ref().map(|o| o.to_bytes().to_vec()),
+        unk: enc.map(ivk_unknown).unwrap_or_default(),
+    }
+}
+
+// ---------------------------------------------------------------------------------------------
+// statistics
+
+#[derive(Default)]
+struct Stats {
+    n: std::collections::BTreeMap<&'static str, u64>,
+}
+impl Stats {
+    fn hit(&mut self, k: &'static str) {
+        *self.n.entry(k).or_insert(0) += 1;
+    }
+    fn json(&self) -> String {
+        let v: Vec<String> = self.n.iter().map(|(k, v)| format!("\"{}\": {}", k, v)).collect();
+        format!("{{{}}}", v.join(", "))
+    }
+}
+
+// ---------------------------------------------------------------------------------------------
+// requirement algebra (exhaustive)
+
+fn reqs_cases(st: &mut Stats) {
+    for a in RQS {
+        for b in RQS {
+            let o = match a.intersect(b) {
+                Ok(r) => ok(rq(r).into()),
+                Err(e) => p_rrerr(e).into(),
+            };
+            case(format!("CIntersect {} {} {}", rq(a), rq(b), o));
+            st.hit("intersect");
+        }
+    }
+    let mut all = vec![];
+    for a in RQS {
+        for b in RQS {
+            for c in RQS {
+                let o = match ReceiverRequirements::new(a, b, c) {
+                    Ok(r) => {
+                        all.push(r);
+                        ok(p_reqs(&r))
+                    }
+                    Err(e) => p_rrerr(e).into(),
+                };
+                case(format!("CReqsNew {} {} {} {}", rq(a), rq(b), rq(c), o));
+                let o = match catch(|| ReceiverRequirements::unsafe_new(a, b, c)) {
+                    Some(r) => ok(p_reqs(&r)),
+                    None => PANIC.into(),
+                };
+                case(format!("CReqsUnsafeNew {} {} {} {}", rq(a), rq(b), rq(c), o));
+                st.hit("reqs_new");
+            }
+        }
+    }
+    for a in &all {
+        for b in &all {
+            let o = match a.intersect(b) {
+                Ok(r) => ok(p_reqs(&r)),
+                Err(e) => p_rrerr(e).into(),
+            };
+            case(format!("CReqsIntersect {} {} {}", p_reqs(a), p_reqs(b), o));
+            st.hit("reqs_intersect");
+        }
+    }
+}
+
+fn all_requests() -> Vec<UnifiedAddressRequest> {
+    let mut v = vec![UnifiedAddressRequest::AllAvailableKeys];
+    for a in RQS {
+        for b in RQS {
+            for c in RQS {
+                if let Ok(r) = UnifiedAddressRequest::custom(a, b, c) {
+                    v.push(r);
+                }
+            }
+        }
+    }
+    v
+}
+
+// ---------------------------------------------------------------------------------------------
+// keys at the three levels
+
+#[derive(Clone)]
+enum Lvl {
+    Usk(UnifiedSpendingKey),
+    Ufvk(UnifiedFullViewingKey),
+    Uivk(UnifiedIncomingViewingKey),
+}
+
+struct Ctx {
+    rng: Rng,
+    st: Stats,
+    reqs: Vec<UnifiedAddressRequest>,
+}
+
+fn lvl_model(l: &Lvl, net: Net) -> (String, Tab, Option<MKey>) {
+    // returns the printed key level, the table with the projections, and the model IVK
+    let mut tab = Tab::default();
+    match l {
+        Lvl::Usk(k) => {
+            let m = m_usk(k);
+            let f = tab.usk(&m);
+            let i = tab.ufvk(&f);
+            (format!("(LUsk {})", p_usk(&m)), tab, Some(i))
+        }
+        Lvl::Ufvk(k) => {
+            let enc = catch(|| k.encode(&net));
+            let m = m_ufvk(k, enc.as_deref());
+            let i = tab.ufvk(&m);
+            (format!("(LUfvk {})", p_ufvk(&m)), tab, Some(i))
+        }
+        Lvl::Uivk(k) => {
+            let enc = catch(|| k.encode(&net));
+            let m = m_uivk(k, enc.as_deref());
+            (format!("(LUivk {})", p_uivk(&m)), tab, Some(m))
+        }
+    }
+}
+
+fn addr_case(cx: &mut Ctx, l: &Lvl, net: Net, j: u128, r: &UnifiedAddressRequest) {
+    let (pk, mut tab, ivk) = lvl_model(l, net);
+    if let Some(i) = &ivk {
+        tab.uivk_at(i, j);
+    }
+    let jj = di(j);
+    let mut outs = vec![];
+    match l {
+        Lvl::Usk(k) => {
+            outs.push(p_addr_res(catch(|| k.to_unified_full_viewing_key().address(jj, *r))));
+            let f = k.to_unified_full_viewing_key();
+            outs.push(p_addr_res(catch(|| f.address(jj, *r))));
+            outs.push(p_addr_res(catch(|| f.to_unified_incoming_viewing_key().address(jj, *r))));
+        }
+        Lvl::Ufvk(f) => {
+            outs.push(p_addr_res(catch(|| f.address(jj, *r))));
+            outs.push(p_addr_res(catch(|| f.to_unified_incoming_viewing_key().address(jj, *r))));
+        }
+        Lvl::Uivk(i) => outs.push(p_addr_res(catch(|| i.address(jj, *r)))),
+    }
+    case(format!("CAddr {} {} {} {} {}", tab.print(), pk, j, p_request(r), list(outs)));
+    cx.st.hit("addr");
+}
+
+fn find_case(cx: &mut Ctx, l: &Lvl, net: Net, j: u128, r: &UnifiedAddressRequest) {
+    let (pk, mut tab, ivk) = lvl_model(l, net);
+    let mut outs = vec![];
+    let mut last = j;
+    let mut note = |res: &Option<Result<(UnifiedAddress, DiversifierIndex), AddressGenerationError>>| {
+        match res {
+            Some(Ok((_, jf))) => last = last.max(u128::from(*jf)),
+            Some(Err(AddressGenerationError::InvalidTransparentChildIndex(jf))) => last = last.max(u128::from(*jf)),
+            Some(Err(AddressGenerationError::DiversifierSpaceExhausted)) => last = (1u128 << 88) - 1,
+            _ => {}
+        }
+    };
+    match l {
+        Lvl::Usk(k) => {
+            let f = k.to_unified_full_viewing_key();
+            let r1 = catch(|| f.find_address(di(j), *r));
+            note(&r1);
+            outs.push(p_find_res(r1));
+        }
+        Lvl::Ufvk(f) => {
+            let r1 = catch(|| f.find_address(di(j), *r));
+            note(&r1);
+            outs.push(p_find_res(r1));
+            let r2 = catch(|| f.to_unified_incoming_viewing_key().find_address(di(j), *r));
+            note(&r2);
+            outs.push(p_find_res(r2));
+        }
+        Lvl::Uivk(i) => {
+            let r1 = catch(|| i.find_address(di(j), *r));
+            note(&r1);
+            outs.push(p_find_res(r1));
+        }
+    }
+    if last - j > 3000 {
+        return; // outside the model's fuel; never happens with real keys (P(invalid) = 1/2 per index)
+    }
+    if let Some(i) = &ivk {
+        let mut x = j;
+        loop {
+            tab.uivk_at(i, x);
+            if x >= last {
+                break;
+            }
+            x += 1;
+        }
+    }
+    if last > j {
+        cx.st.hit("find_skipped");
+    }
+    case(format!("CFind {} {} {} {} {}", tab.print(), pk, j, p_request(r), list(outs)));
+    cx.st.hit("find");
+}
+
+/// indices: boundary lattice + the first Sapling-invalid index of this key + random
+fn j_lattice(cx: &mut Ctx, ivk: &UnifiedIncomingViewingKey) -> Vec<u128> {
+    let mut v: Vec<u128> = vec![
+        0,
+        1,
+        (1 << 31) - 2,
+        (1 << 31) - 1,
+        1 << 31,
+        (1u128 << 32) - 1,
+        1u128 << 32,
+        (1u128 << 32) + 5,
+        1u128 << 64,
+        (1u128 << 88) - 2,
+        (1u128 << 88) - 1,
+    ];
+    if let Some(s) = ivk.sapling() {
+        let mut inv = 0;
+        let mut val = 0;
+        for x in 0..64u128 {
+            if s.address_at(di(x)).is_none() && inv < 2 {
+                v.push(x);
+                inv += 1;
+            } else if val < 1 && x > 1 && s.address_at(di(x)).is_some() {
+                v.push(x);
+                val += 1;
+            }
+        }
+    }
+    v.push(cx.rng.below(1 << 20) as u128);
+    v.push((cx.rng.u64() as u128) << 24 | cx.rng.below(1 << 24) as u128);
+    v.push(cx.rng.below(1 << 31) as u128);
+    v
+}
+
+fn subsets_ufvk(f: &UnifiedFullViewingKey) -> Vec<UnifiedFullViewingKey> {
+    let mut v = vec![];
+    for m in 0..8u32 {
+        let t = if m & 1 != 0 { f.transparent().cloned() } else { None };
+        let s = if m & 2 != 0 { f.sapling().cloned() } else { None };
+        let o = if m & 4 != 0 { f.orchard().cloned() } else { None };
+        if let Ok(k) = UnifiedFullViewingKey::new(t, s, o) {
+            v.push(k);
+        }
+    }
+    v
+}
+fn subsets_uivk(i: &UnifiedIncomingViewingKey) -> Vec<UnifiedIncomingViewingKey> {
+    let mut v = vec![];
+    for m in 0..8u32 {
+        let t = if m & 1 != 0 { i.transparent().clone() } else { None };
+        let s = if m & 2 != 0 { i.sapling().clone() } else { None };
+        let o = if m & 4 != 0 { i.orchard().clone() } else { None };
+        v.push(UnifiedIncomingViewingKey::new(t, s, o));
+    }
+    v
+}
+
+// ---------------------------------------------------------------------------------------------
+// encodings
+
+fn p_dinput(s: &str) -> String {
+    match unbech(s) {
+        None => "NotBech32".into(),
+        Some((h, p)) => format!("(Bech {} {})", hx(h.as_bytes()), sx(&unjumble(&p))),
+    }
+}
+
+/// scan an un-jumbled payload for items and record the decoder oracles the model may consult
+fn scan_items(tab: &mut Tab, raw: &[u8], fvk: bool) {
+    if raw.len() < 16 {
+        return;
+    }
+    let body = &raw[..raw.len() - 16];
+    let mut p = 0usize;
+    for _ in 0..64 {
+        let Some(tc) = rd_cs(body, &mut p) else { return };
+        let Some(len) = rd_cs(body, &mut p) else { return };
+        let len = len as usize;
+        if body.len() < p + len {
+            return;
+        }
+        let data = &body[p..p + len];
+        p += len;
+        let f = match (fvk, tc) {
+            (true, 3) => 13,
+            (true, 2) => 14,
+            (true, 0) => 15,
+            (false, 3) => 16,
+            (false, 2) => 17,
+            (false, 0) => 18,
+            _ => 0,
+        };
+        if f != 0 {
+            let d = tab.dec(f, data);
+            if f == 15 {
+                if let Some(pk) = d {
+                    let v = orc_t_pk_ivk(&pk);
+                    tab.opt(6, &pk, 0, v);
+                }
+            }
+        }
+    }
+}
+fn rd_cs(b: &[u8], p: &mut usize) -> Option<u64> {
+    let f = *b.get(*p)?;
+    *p += 1;
+    let n = match f {
+        0..=252 => return Some(f as u64),
+        253 => 2,
+        254 => 4,
+        _ => 8,
+    };
+    if b.len() < *p + n {
+        return None;
+    }
+    let mut v = 0u64;
+    for i in 0..n {
+        v |= (b[*p + i] as u64) << (8 * i);
+    }
+    *p += n;
+    Some(v)
+}
+
+fn ufvk_decode_case(cx: &mut Ctx, net: Net, s: &str, orig: Option<&MKey>) {
+    let mut tab = Tab::default();
+    if let Some((_, p)) = unbech(s) {
+        if let Some(raw) = unjumble(&p) {
+            scan_items(&mut tab, &raw, true);
+        }
+    }
+    let res = catch(|| UnifiedFullViewingKey::decode(&net, s));
+    let o = match res {
+        None => PANIC.into(),
+        Some(Ok(k)) => match catch(|| k.encode(&net)) {
+            Some(e) => match enc_obs(&e) {
+                Some(eo) => ok(format!("({}, {})", p_ufvk(&m_ufvk(&k, Some(&e))), p_enc(&eo))),
+                None => PANIC.into(),
+            },
+            None => PANIC.into(),
+        },
+        Some(Err(_)) => match Ufvk::decode(s) {
+            Err(pe) => format!("(Err (EParse {}))", p_parseerr(&pe)),
+            Ok((n, u)) => {
+                if nt_id(n) != net_id(net) {
+                    "(Err ENetwork)".into()
+                } else {
+                    match catch(|| UnifiedFullViewingKey::parse(&u)) {
+                        Some(Err(de)) => format!("(Err (EKey {}))", p_decerr(&de)),
+                        _ => "(Err (EKey OutOfFuel))".into(), // stages disagree: never equal to the model
+                    }
+                }
+            }
+        },
+    };
+    let po = match orig {
+        Some(k) => format!("(Some {})", p_ufvk(k)),
+        None => "None".into(),
+    };
+    case(format!("CUfvkDecode {} {} {} {} {}", tab.print(), net_id(net), po, p_dinput(s), o));
+    cx.st.hit(if orig.is_some() { "ufvk_decode_valid" } else { "ufvk_decode_malformed" });
+}
+
+fn uivk_decode_case(cx: &mut Ctx, net: Net, s: &str, orig: Option<&MKey>) {
+    let mut tab = Tab::default();
+    if let Some((_, p)) = unbech(s) {
+        if let Some(raw) = unjumble(&p) {
+            scan_items(&mut tab, &raw, false);
+        }
+    }
+    let res = catch(|| UnifiedIncomingViewingKey::decode(&net, s));
+    let o = match res {
+        None => PANIC.into(),
+        Some(Ok(k)) => match catch(|| k.encode(&net)) {
+            Some(e) => match enc_obs(&e) {
+                Some(eo) => ok(format!("({}, {})", p_uivk(&m_uivk(&k, Some(&e))), p_enc(&eo))),
+                None => PANIC.into(),
+            },
+            None => PANIC.into(),
+        },
+        Some(Err(msg)) => match Uivk::decode(s) {
+            Err(pe) => format!("(Err (EParse {}))", p_parseerr(&pe)),
+            Ok((n, _)) => {
+                if nt_id(n) != net_id(net) {
+                    "(Err ENetwork)".into()
+                } else if msg.contains("Invalid key data for key type Orchard") {
+                    "(Err (EKey (KeyDataInvalid TcOrchard)))".into()
+                } else if msg.contains("Invalid key data for key type Sapling") {
+                    "(Err (EKey (KeyDataInvalid TcSapling)))".into()
+                } else if msg.contains("Invalid key data for key type P2pkh") {
+                    "(Err (EKey (KeyDataInvalid TcP2pkh)))".into()
+                } else {
+                    "(Err (EKey OutOfFuel))".into()
+                }
+            }
+        },
+    };
+    let po = match orig {
+        Some(k) => format!("(Some {})", p_uivk(k)),
+        None => "None".into(),
+    };
+    case(format!("CUivkDecode {} {} {} {} {}", tab.print(), net_id(net), po, p_dinput(s), o));
+    cx.st.hit(if orig.is_some() { "uivk_decode_valid" } else { "uivk_decode_malformed" });
+}
+
+fn p_enc_res(r: Option<String>) -> String {
+    match r {
+        None => PANIC.into(),
+        Some(s) => match enc_obs(&s) {
+            Some(e) => ok(p_enc(&e)),
+            None => "(Err tt)".into(),
+        },
+    }
+}
+
+/// mutations of an un-jumbled payload (items ++ 16 bytes of padding)
+fn mutate_raw(cx: &mut Ctx, raw: &[u8]) -> B {
+    let mut v = raw.to_vec();
+    let body = v.len() - 16;
+    match cx.rng.below(15) {
+        12 | 13 | 14 => {
+            // corrupt the key material of one known item (point / scalar encodings)
+            let mut p = 0usize;
+            let mut items = vec![];
+            while p < body {
+                let Some(tc) = rd_cs(&v[..body], &mut p) else { break };
+                let Some(len) = rd_cs(&v[..body], &mut p) else { break };
+                if p + len as usize > body {
+                    break;
+                }
+                items.push((tc, p, len as usize));
+                p += len as usize;
+            }
+            if let Some((tc, at, len)) = items.get(cx.rng.below(items.len().max(1) as u64) as usize).copied() {
+                if len > 0 {
+                    let off = match (tc, cx.rng.below(3)) {
+                        (0, 0) => 32,          // compressed public key prefix byte
+                        (_, 1) => len - 1,     // top byte of the last field element
+                        (_, _) => cx.rng.below(len.min(32) as u64) as usize,
+                    };
+                    v[at + off.min(len - 1)] = *cx.rng.pick(&[0xffu8, 0x05, 0x00, 0x80, 0x7f]);
+                }
+            }
+        }
+        0 => {
+            // flip a byte inside key data
+            let i = cx.rng.below(body as u64) as usize;
+            v[i] ^= 1 << cx.rng.below(8);
+        }
+        1 => {
+            // typecode of the first item
+            v[0] = *cx.rng.pick(&[0u8, 1, 2, 3, 4, 5, 0x7f, 0xfc, 0xfd, 0xfe, 0xff]);
+        }
+        2 => {
+            // length byte of the first item
+            v[1] = v[1].wrapping_add(*cx.rng.pick(&[1u8, 0xff, 2, 0x80]));
+        }
+        3 => {
+            // padding
+            let i = body + cx.rng.below(16) as usize;
+            v[i] ^= 1 << cx.rng.below(8);
+        }
+        4 => {
+            // truncate the body
+            let cut = 1 + cx.rng.below(body.min(40) as u64) as usize;
+            v.drain(body - cut..body);
+        }
+        5 => {
+            // append an unknown item
+            let tc = *cx.rng.pick(&[4u32, 5, 0xfc, 0xfd, 0xffff, 0x10000, 0x02000000, 0x02000001]);
+            let mut it = vec![];
+            wr_cs(&mut it, tc as u64);
+            let n = cx.rng.below(40) as usize;
+            wr_cs(&mut it, n as u64);
+            it.extend(cx.rng.bytes(n));
+            let tail = v.split_off(body);
+            v.extend(it);
+            v.extend(tail);
+        }
+        6 => {
+            // duplicate the whole body (duplicate typecodes / order)
+            let b = v[..body].to_vec();
+            let tail = v.split_off(body);
+            v.extend(b);
+            v.extend(tail);
+        }
+        7 => {
+            // prepend a P2SH item (never valid in a viewing key)
+            let mut it = vec![1u8, 20];
+            it.extend(cx.rng.bytes(20));
+            it.extend(v);
+            v = it;
+        }
+        8 => {
+            // non-canonical CompactSize for the first typecode
+            let t = v[0];
+            v.splice(0..1, [0xfd, t, 0]);
+        }
+        9 => {
+            // random bytes in place of the body
+            let n = 32 + cx.rng.below(64) as usize;
+            let tail = v.split_off(body);
+            v = cx.rng.bytes(n);
+            v.extend(tail);
+        }
+        10 => {
+            // swap first two items is hard without parsing: reverse the body instead
+            v[..body].reverse();
+        }
+        _ => {
+            // several byte flips
+            for _ in 0..3 {
+                let i = cx.rng.below(v.len() as u64) as usize;
+                v[i] = cx.rng.below(256) as u8;
+            }
+        }
+    }
+    v
+}
+fn wr_cs(v: &mut B, n: u64) {
+    if n < 253 {
+        v.push(n as u8)
+    } else if n <= 0xffff {
+        v.push(253);
+        v.extend((n as u16).to_le_bytes())
+    } else if n <= 0xffff_ffff {
+        v.push(254);
+        v.extend((n as u32).to_le_bytes())
+    } else {
+        v.push(255);
+        v.extend(n.to_le_bytes())
+    }
+}
+
+fn items_raw(items: &[(u32, B)], hrp: &str) -> B {
+    let mut v = vec![];
+    for (t, d) in items {
+        wr_cs(&mut v, *t as u64);
+        wr_cs(&mut v, d.len() as u64);
+        v.extend(d);
+    }
+    let mut pad = [0u8; 16];
+    pad[..hrp.len()].copy_from_slice(hrp.as_bytes());
+    v.extend(pad);
+    v
+}
+
+const FVK_HRP: [&str; 3] = ["uview", "uviewtest", "uviewregtest"];
+const IVK_HRP: [&str; 3] = ["uivk", "uivktest", "uivkregtest"];
+
+// ---------------------------------------------------------------------------------------------
+// USK byte container
+
+fn scan_usk(tab: &mut Tab, b: &[u8]) {
+    if b.len() < 4 {
+        return;
+    }
+    let body = &b[4..];
+    let mut p = 0usize;
+    for _ in 0..16 {
+        let Some(tc) = rd_cs(body, &mut p) else { return };
+        let Some(len) = rd_cs(body, &mut p) else { return };
+        let (f, want) = match tc {
+            3 => (10, 32usize),
+            2 => (11, 169),
+            0 => (12, 74),
+            _ => return,
+        };
+        if len as usize != want || body.len() < p + want {
+            return;
+        }
+        let data = &body[p..p + want];
+        p += want;
+        let d = tab.dec(f, data);
+        if f == 12 {
+            if let Some(sk) = d {
+                if let Some(pk) = orc_t_sk_pk(&sk) {
+                    tab.some(3, &sk, 0, Some(pk.clone()));
+                    let v = orc_t_pk_ivk(&pk);
+                    tab.opt(6, &pk, 0, v);
+                }
+            }
+        }
+    }
+}
+
+fn usk_decode_case(cx: &mut Ctx, b: &[u8], orig: Option<&MUsk>) {
+    let mut tab = Tab::default();
+    scan_usk(&mut tab, b);
+    let o = match catch(|| UnifiedSpendingKey::from_bytes(Era::Orchard, b)) {
+        None => PANIC.into(),
+        Some(Ok(k)) => ok(format!("({}, {})", p_usk(&m_usk(&k)), hx(&k.to_bytes(Era::Orchard)))),
+        Some(Err(e)) => format!("(Err {})", p_decerr(&e)),
+    };
+    let po = match orig {
+        Some(k) => format!("(Some {})", p_usk(k)),
+        None => "None".into(),
+    };
+    case(format!("CUskDecode {} {} {} {}", tab.print(), po, hx(b), o));
+    cx.st.hit(if orig.is_some() { "usk_decode_valid" } else { "usk_decode_malformed" });
+}
+
+fn mutate_usk(cx: &mut Ctx, enc: &[u8]) -> B {
+    let mut v = enc.to_vec();
+    // layout: era(4) | 03 20 o(32) | 02 a9 s(169) | 00 4a t(74)
+    // sapling key: depth(1) tag(4) index(4) chain(32) ask(32) nsk(32) ovk(32) dk(32), from 40
+    match cx.rng.below(15) {
+        12 => {
+            // non-canonical ask scalar: sapling-crypto 0.7.0 panics on it
+            v[40 + 41 + 31] = 0xf0 | cx.rng.below(16) as u8;
+        }
+        13 => {
+            // non-canonical nsk scalar
+            v[40 + 73 + 31] = 0xff;
+        }
+        14 => {
+            // transparent key: non-zero private-key prefix byte / depth byte
+            let pos = *cx.rng.pick(&[211usize + 41, 211]);
+            v[pos] = 1 + cx.rng.below(255) as u8;
+        }
+        0 => {
+            let i = cx.rng.below(4) as usize;
+            v[i] ^= 1 << cx.rng.below(8);
+        }
+        1 => {
+            // another known branch id (Canopy) / zero
+            let id: u32 = *cx.rng.pick(&[0xe9ff_75a6u32, 0, 0x76b8_09bb, 0xc8e7_1055]);
+            v[..4].copy_from_slice(&id.to_le_bytes());
+        }
+        2 => {
+            let n = cx.rng.below(v.len() as u64) as usize;
+            v.truncate(n);
+        }
+        3 => {
+            let n = 1 + cx.rng.below(8) as usize;
+            v.extend(cx.rng.bytes(n));
+        }
+        4 => {
+            // typecode bytes
+            let pos = *cx.rng.pick(&[4usize, 38, 209]);
+            v[pos] = *cx.rng.pick(&[0u8, 1, 2, 3, 4, 0xfc, 0xfd, 0xfe, 0xff]);
+        }
+        5 => {
+            // length bytes
+            let pos = *cx.rng.pick(&[5usize, 39, 210]);
+            v[pos] = v[pos].wrapping_add(*cx.rng.pick(&[1u8, 0xff, 0x10]));
+        }
+        6 => {
+            // reorder: t | s | o
+            let era = v[..4].to_vec();
+            let o = v[4..38].to_vec();
+            let s = v[38..209].to_vec();
+            let t = v[209..].to_vec();
+            v = [era, t, s, o].concat();
+        }
+        7 => {
+            // duplicate the orchard item with different data first
+            let mut o2 = v[4..38].to_vec();
+            o2[5] ^= 0x55;
+            let rest = v.split_off(4);
+            v.extend(o2);
+            v.extend(rest);
+        }
+        8 => {
+            // flip inside the sapling key (ask: may panic inside sapling-crypto)
+            let i = 40 + cx.rng.below(169) as usize;
+            v[i] ^= 1 << cx.rng.below(8);
+        }
+        9 => {
+            // flip inside the transparent key
+            let i = 211 + cx.rng.below(74) as usize;
+            v[i] ^= 1 << cx.rng.below(8);
+        }
+        10 => {
+            // flip inside the orchard key / set it to ff..
+            if cx.rng.bool() {
+                for x in &mut v[6..38] {
+                    *x = 0xff;
+                }
+            } else {
+                let i = 6 + cx.rng.below(32) as usize;
+                v[i] ^= 1 << cx.rng.below(8);
+            }
+        }
+        _ => {
+            for _ in 0..(1 + cx.rng.below(3)) {
+                let i = cx.rng.below(v.len() as u64) as usize;
+                v[i] = cx.rng.below(256) as u8;
+            }
+        }
+    }
+    v
+}
+
+// ---------------------------------------------------------------------------------------------
+// cryptographic clauses (observed booleans)
+
+fn crypto_cases(cx: &mut Ctx, keys: &[(Net, UnifiedSpendingKey)]) {
+    for (idx, (_net, usk)) in keys.iter().enumerate() {
+        let ufvk = usk.to_unified_full_viewing_key();
+        let uivk = ufvk.to_unified_incoming_viewing_key();
+        let (_, other) = &keys[(idx + 1) % keys.len()];
+        let other_ivk = other.to_unified_full_viewing_key().to_unified_incoming_viewing_key();
+        let same_key = m_usk(other) == m_usk(usk);
+        for start in [0u128, cx.rng.below(1 << 30) as u128, (cx.rng.u64() as u128) << 20] {
+            // 1: a key recognises its own address and recovers exactly the index
+            if let Ok((ua, j)) = uivk.find_address(di(start), UnifiedAddressRequest::AllAvailableKeys) {
+                let got = uivk.decrypt_diversifiers(&ua);
+                let want: BTreeSet<DiversifierIndex> = [j].into_iter().collect();
+                case(format!("CCrypto 1 {}", boolc(got == want)));
+                cx.st.hit("crypto_recognise");
+                // 2: an unrelated account's key recognises nothing
+                if !same_key {
+                    case(format!("CCrypto 2 {}", boolc(other_ivk.decrypt_diversifiers(&ua).is_empty())));
+                }
+                // shielded-only and single-pool addresses as well
+                for r in [UnifiedAddressRequest::SHIELDED, UnifiedAddressRequest::ORCHARD] {
+                    if let Ok(ua2) = uivk.address(j, r) {
+                        let got = uivk.decrypt_diversifiers(&ua2);
+                        case(format!("CCrypto 1 {}", boolc(got == want)));
+                    }
+                }
+                note_clauses(cx, &ufvk, &other.to_unified_full_viewing_key(), &ua, same_key);
+            }
+        }
+    }
+}
+
+/// 3/4: Sapling, 5/6: Orchard — a note encrypted to the derived receiver decrypts under the
+/// external-scope IVK of the same account (3, 5) and not under the internal-scope IVK nor under
+/// another account's external IVK (4, 6).
+fn note_clauses(
+    cx: &mut Ctx,
+    ufvk: &UnifiedFullViewingKey,
+    other: &UnifiedFullViewingKey,
+    ua: &UnifiedAddress,
+    same_key: bool,
+) {
+    use zcash_note_encryption::{try_compact_note_decryption, EphemeralKeyBytes};
+    if let (Some(pa), Some(dfvk)) = (ua.sapling(), ufvk.sapling()) {
+        use sapling::note_encryption::{
+            sapling_note_encryption, try_sapling_compact_note_decryption, CompactOutputDescription,
+            PreparedIncomingViewingKey, Zip212Enforcement,
+        };
+        let rseed = sapling::Rseed::AfterZip212(cx.rng.bytes(32).try_into().unwrap());
+        let note = sapling::Note::from_parts(*pa, sapling::value::NoteValue::from_raw(cx.rng.below(1 << 40)), rseed);
+        let enc = sapling_note_encryption(None, note.clone(), [0u8; 512], &mut cx.rng.0);
+        let ct = enc.encrypt_note_plaintext();
+        let out = CompactOutputDescription {
+            ephemeral_key: <sapling::note_encryption::SaplingDomain as zcash_note_encryption::Domain>::epk_bytes(enc.epk()),
+            cmu: note.cmu(),
+            enc_ciphertext: ct[..52].try_into().unwrap(),
+        };
+        let try_ivk = |ivk: &sapling::SaplingIvk| {
+            try_sapling_compact_note_decryption(&PreparedIncomingViewingKey::new(ivk), &out, Zip212Enforcement::On)
+        };
+        let ext = try_ivk(&dfvk.to_ivk(zip32::Scope::External));
+        let good = matches!(&ext, Some((n, a)) if n.value() == note.value() && a == pa);
+        case(format!("CCrypto 3 {}", boolc(good)));
+        let int = try_ivk(&dfvk.to_ivk(zip32::Scope::Internal)).is_none();
+        let oth = same_key
+            || other.sapling().map(|d| try_ivk(&d.to_ivk(zip32::Scope::External)).is_none()).unwrap_or(true);
+        case(format!("CCrypto 4 {}", boolc(int && oth)));
+        cx.st.hit("crypto_sapling_note");
+    }
+    if let (Some(oa), Some(fvk)) = (ua.orchard(), ufvk.orchard()) {
+        use orchard::note_encryption::{CompactAction, OrchardDomain, OrchardNoteEncryption};
+        use orchard::note::{ExtractedNoteCommitment, Nullifier, RandomSeed, Rho};
+        // rho must be a valid base field element: retry a few times
+        for _ in 0..8 {
+            let rb: [u8; 32] = cx.rng.bytes(32).try_into().unwrap();
+            let Some(rho) = ct(Rho::from_bytes(&rb)) else { continue };
+            let sb: [u8; 32] = cx.rng.bytes(32).try_into().unwrap();
+            let Some(rseed) = ct(RandomSeed::from_bytes(sb, &rho)) else { continue };
+            let val = orchard::value::NoteValue::from_raw(cx.rng.below(1 << 40));
+            let Some(note) = ct(orchard::Note::from_parts(*oa, val, rho, rseed, orchard::NoteVersion::V2)) else { continue };
+            let enc = OrchardNoteEncryption::new(None, note, [0u8; 512]);
+            let ctx = enc.encrypt_note_plaintext();
+            let cmx = ExtractedNoteCommitment::from(note.commitment());
+            let nf = ct(Nullifier::from_bytes(&rb)).unwrap();
+            let act = CompactAction::from_parts(
+                nf,
+                cmx,
+                <OrchardDomain as zcash_note_encryption::Domain>::epk_bytes(enc.epk()),
+                ctx[..52].try_into().unwrap(),
+            );
+            let dom = OrchardDomain::for_compact_action(&act);
+            let try_ivk = |ivk: orchard::keys::IncomingViewingKey| {
+                try_compact_note_decryption(&dom, &ivk.prepare(), &act)
+            };
+            let ext = try_ivk(fvk.to_ivk(orchard::keys::Scope::External));
+            let good = matches!(&ext, Some((n, a)) if n.value() == val && a == oa);
+            case(format!("CCrypto 5 {}", boolc(good)));
+            let int = try_ivk(fvk.to_ivk(orchard::keys::Scope::Internal)).is_none();
+            let oth = same_key
+                || other.orchard().map(|f| try_ivk(f.to_ivk(orchard::keys::Scope::External)).is_none()).unwrap_or(true);
+            case(format!("CCrypto 6 {}", boolc(int && oth)));
+            cx.st.hit("crypto_orchard_note");
+            break;
+        }
+    }
+}
+
+/// 7/8: legacy encodings round-trip (Sapling Bech32, transparent Base58Check)
+fn legacy_cases(cx: &mut Ctx, net: Net, usk: &UnifiedSpendingKey) {
+    use zcash_keys::encoding::*;
+    use zcash_protocol::consensus::NetworkConstants;
+    let extsk = usk.sapling();
+    let s = encode_extended_spending_key(net.hrp_sapling_extended_spending_key(), extsk);
+    let back = decode_extended_spending_key(net.hrp_sapling_extended_spending_key(), &s);
+    let ok1 = matches!(&back, Ok(k) if k.to_bytes() == extsk.to_bytes()
+        && encode_extended_spending_key(net.hrp_sapling_extended_spending_key(), k) == s);
+    let wrong = decode_extended_spending_key("zxviews", &s).is_err();
+    case(format!("CCrypto 7 {}", boolc(ok1 && wrong)));
+    #[allow(deprecated)]
+    let extfvk = extsk.to_extended_full_viewing_key();
+    let s = encode_extended_full_viewing_key(net.hrp_sapling_extended_full_viewing_key(), &extfvk);
+    let back = decode_extended_full_viewing_key(net.hrp_sapling_extended_full_viewing_key(), &s);
+    let ok2 = matches!(&back, Ok(k) if *k == extfvk
+        && encode_extended_full_viewing_key(net.hrp_sapling_extended_full_viewing_key(), k) == s);
+    case(format!("CCrypto 7 {}", boolc(ok2)));
+    let (_, pa) = extsk.default_address();
+    let s = encode_payment_address(net.hrp_sapling_payment_address(), &pa);
+    let back = decode_payment_address(net.hrp_sapling_payment_address(), &s);
+    let ok3 = matches!(&back, Ok(a) if *a == pa && encode_payment_address(net.hrp_sapling_payment_address(), a) == s);
+    case(format!("CCrypto 7 {}", boolc(ok3)));
+    let (ta, _) = usk.default_transparent_address();
+    let alt = TransparentAddress::ScriptHash(cx.rng.bytes(20).try_into().unwrap());
+    for a in [ta, alt] {
+        let s = encode_transparent_address(&net.b58_pubkey_address_prefix(), &net.b58_script_address_prefix(), &a);
+        let back = decode_transparent_address(&net.b58_pubkey_address_prefix(), &net.b58_script_address_prefix(), &s);
+        let ok4 = matches!(&back, Ok(Some(b)) if *b == a
+            && encode_transparent_address(&net.b58_pubkey_address_prefix(), &net.b58_script_address_prefix(), b) == s);
+        case(format!("CCrypto 8 {}", boolc(ok4)));
+    }
+    cx.st.hit("legacy");
+}
+
+// ---------------------------------------------------------------------------------------------
+
+fn main() {
+    quiet_panics();
+    let a = args();
+    let n_keys = if a.search { 40 } else { a.budget(4, 120) };
+    let mut cx = Ctx { rng: Rng::new(a.seed, 11), st: Stats::default(), reqs: all_requests() };
+    reqs_cases(&mut cx.st);
+
+    // keys: seeds x accounts x networks
+    let mut keys: Vec<(Net, UnifiedSpendingKey)> = vec![];
+    let accounts: [u32; 4] = [0, 1, (1 << 31) - 1, 0];
+    for i in 0..n_keys {
+        let seed_len = *cx.rng.pick(&[32usize, 32, 64, 64, 32, 32, 64, 33]);
+        let seed = if i == 0 { vec![0u8; 32] } else { cx.rng.bytes(seed_len) };
+        let acct = if i % 4 == 3 { cx.rng.below(1 << 31) as u32 } else { accounts[i % 4] };
+        let net = NETS[i % 3];
+        match catch(|| UnifiedSpendingKey::from_seed(&net, &seed, AccountId::try_from(acct).unwrap())) {
+            Some(Ok(k)) => keys.push((net, k)),
+            _ => cx.st.hit("from_seed_failed"),
+        }
+    }
+
+    let reqs = cx.reqs.clone();
+    for (ki, (net, usk)) in keys.clone().iter().enumerate() {
+        let net = *net;
+        let musk = m_usk(usk);
+        let ufvk = usk.to_unified_full_viewing_key();
+        let uivk = ufvk.to_unified_incoming_viewing_key();
+
+        // projections
+        {
+            let mut tab = Tab::default();
+            tab.usk(&musk);
+            case(format!("CUskToUfvk {} {} {}", tab.print(), p_usk(&musk), p_ufvk(&m_ufvk(&ufvk, None))));
+        }
+        let fsubs = subsets_ufvk(&ufvk);
+        let isubs = subsets_uivk(&uivk);
+        for f in &fsubs {
+            let enc = catch(|| f.encode(&net));
+            let mf = m_ufvk(f, enc.as_deref());
+            let mut tab = Tab::default();
+            tab.ufvk(&mf);
+            let o = match catch(|| f.to_unified_incoming_viewing_key()) {
+                None => PANIC.into(),
+                Some(i) => {
+                    let e = catch(|| i.encode(&net));
+                    ok(p_uivk(&m_uivk(&i, e.as_deref())))
+                }
+            };
+            case(format!("CUfvkToUivk {} {} {}", tab.print(), p_ufvk(&mf), o));
+            cx.st.hit("projection");
+            // encode / decode / re-encode on every network
+            for n2 in NETS {
+                if n2 != net && !cx.rng.chance(1, 3) {
+                    continue;
+                }
+                let enc = catch(|| f.encode(&n2));
+                case(format!("CUfvkEncode {} {} {}", net_id(n2), p_ufvk(&mf), p_enc_res(enc.clone())));
+                cx.st.hit("ufvk_encode");
+                if let Some(s) = enc {
+                    ufvk_decode_case(&mut cx, n2, &s, Some(&mf));
+                    // the same string under another expected network
+                    let n3 = NETS[(net_id(n2) as usize + 1) % 3];
+                    ufvk_decode_case(&mut cx, n3, &s, None);
+                    // as a UIVK string
+                    uivk_decode_case(&mut cx, n2, &s, None);
+                }
+            }
+        }
+        for i in &isubs {
+            let enc = catch(|| i.encode(&net));
+            let mi = m_uivk(i, enc.as_deref());
+            for n2 in NETS {
+                if n2 != net && !cx.rng.chance(1, 3) {
+                    continue;
+                }
+                let enc = catch(|| i.encode(&n2));
+                case(format!("CUivkEncode {} {} {}", net_id(n2), p_uivk(&mi), p_enc_res(enc.clone())));
+                cx.st.hit("uivk_encode");
+                if let Some(s) = enc {
+                    uivk_decode_case(&mut cx, n2, &s, Some(&mi));
+                    let n3 = NETS[(net_id(n2) as usize + 2) % 3];
+                    uivk_decode_case(&mut cx, n3, &s, None);
+                    ufvk_decode_case(&mut cx, n2, &s, None);
+                }
+            }
+            // receiver_requirements
+            for r in &reqs {
+                if ki > 0 && !cx.rng.chance(1, 6) {
+                    continue;
+                }
+                let o = match catch(|| i.receiver_requirements(*r)) {
+                    None => PANIC.into(),
+                    Some(Ok(q)) => ok(p_reqs(&q)),
+                    Some(Err(e)) => p_aerr(&e),
+                };
+                case(format!("CRecvReq {} {} {}", p_uivk(&mi), p_request(r), o));
+                cx.st.hit("recv_req");
+            }
+        }
+
+        // keys with unknown items (only reachable by parsing)
+        let hrp = FVK_HRP[net_id(net) as usize];
+        let full = m_ufvk(&ufvk, None);
+        for _ in 0..2 {
+            let mut items: Vec<(u32, B)> = vec![];
+            let mut mk = MKey::default();
+            if cx.rng.bool() {
+                mk.t = full.t.clone();
+                items.push((0, full.t.clone().unwrap()));
+            }
+            if cx.rng.bool() {
+                mk.s = full.s.clone();
+                items.push((2, full.s.clone().unwrap()));
+            }
+            if cx.rng.chance(2, 3) {
+                mk.o = full.o.clone();
+                items.push((3, full.o.clone().unwrap()));
+            }
+            let mut tcs: Vec<u32> = (0..1 + cx.rng.below(3))
+                .map(|_| *cx.rng.pick(&[4u32, 5, 6, 0xfc, 0xfd, 0xfffe, 0xffff, 0x10000, 0x01ff_ffff, 0x0200_0000]))
+                .collect();
+            tcs.sort();
+            tcs.dedup();
+            for tc in tcs {
+                let n = cx.rng.below(300) as usize;
+                let d = cx.rng.bytes(n);
+                mk.unk.push((tc, d.clone()));
+                items.push((tc, d));
+            }
+            if let Some(s) = rebech(hrp, &items_raw(&items, hrp)) {
+                ufvk_decode_case(&mut cx, net, &s, Some(&mk));
+                cx.st.hit("ufvk_unknown_items");
+                // address derivation from a parsed key with unknown items
+                if let Ok(k) = UnifiedFullViewingKey::decode(&net, &s) {
+                    let r = *cx.rng.pick(&reqs);
+                    addr_case(&mut cx, &Lvl::Ufvk(k), net, 0, &r);
+                }
+            }
+        }
+        let ihrp = IVK_HRP[net_id(net) as usize];
+        let ifull = m_uivk(&uivk, None);
+        for _ in 0..2 {
+            let mut items: Vec<(u32, B)> = vec![];
+            let mut mk = MKey::default();
+            if cx.rng.bool() {
+                mk.t = ifull.t.clone();
+                items.push((0, ifull.t.clone().unwrap()));
+            }
+            if cx.rng.bool() {
+                mk.s = ifull.s.clone();
+                items.push((2, ifull.s.clone().unwrap()));
+            }
+            if cx.rng.chance(2, 3) {
+                mk.o = ifull.o.clone();
+                items.push((3, ifull.o.clone().unwrap()));
+            }
+            let mut tcs: Vec<u32> = (0..1 + cx.rng.below(3))
+                .map(|_| *cx.rng.pick(&[4u32, 7, 0xfc, 0xfd, 0xffff, 0x10000, 0x0200_0000]))
+                .collect();
+            tcs.sort();
+            tcs.dedup();
+            for tc in tcs {
+                let n = cx.rng.below(300) as usize;
+                let d = cx.rng.bytes(n);
+                mk.unk.push((tc, d.clone()));
+                items.push((tc, d));
+            }
+            if let Some(s) = rebech(ihrp, &items_raw(&items, ihrp)) {
+                uivk_decode_case(&mut cx, net, &s, Some(&mk));
+                cx.st.hit("uivk_unknown_items");
+                if let Ok(k) = UnifiedIncomingViewingKey::decode(&net, &s) {
+                    let r = *cx.rng.pick(&reqs);
+                    addr_case(&mut cx, &Lvl::Uivk(k), net, 1, &r);
+                }
+            }
+        }
+
+        // malformed UFVK / UIVK strings
+        let n_mal = if a.search { 40 } else { a.budget(14, 40) };
+        if let Some(fe) = catch(|| ufvk.encode(&net)).and_then(|s| enc_obs(&s)) {
+            for _ in 0..n_mal {
+                let raw = mutate_raw(&mut cx, &fe.1);
+                let h = if cx.rng.chance(1, 10) { *cx.rng.pick(&["uview", "uviewtest", "uivk", "u", "zs", "uviewx"]) } else { hrp };
+                if let Some(s) = rebech(h, &raw) {
+                    ufvk_decode_case(&mut cx, net, &s, None);
+                }
+            }
+        }
+        if let Some(ie) = catch(|| uivk.encode(&net)).and_then(|s| enc_obs(&s)) {
+            for _ in 0..n_mal {
+                let raw = mutate_raw(&mut cx, &ie.1);
+                let h = if cx.rng.chance(1, 10) { *cx.rng.pick(&["uivk", "uivktest", "uview", "utest", "uivkregtes"]) } else { ihrp };
+                if let Some(s) = rebech(h, &raw) {
+                    uivk_decode_case(&mut cx, net, &s, None);
+                }
+            }
+        }
+        if ki == 0 {
+            // string-level malformations
+            let s = ufvk.encode(&net);
+            let mut t = s.clone().into_bytes();
+            let n = t.len();
+            t[n - 3] = if t[n - 3] == b'q' { b'p' } else { b'q' };
+            for bad in [
+                String::from_utf8(t).unwrap(),
+                s.to_uppercase(),
+                s[..s.len() - 1].to_string(),
+                "".to_string(),
+                "uview1".to_string(),
+                "not a key".to_string(),
+                format!("{}x", s),
+            ] {
+                ufvk_decode_case(&mut cx, net, &bad, None);
+                uivk_decode_case(&mut cx, net, &bad, None);
+            }
+        }
+
+        // USK byte container
+        let enc = usk.to_bytes(Era::Orchard);
+        case(format!("CUskEncode {} {}", p_usk(&musk), hx(&enc)));
+        usk_decode_case(&mut cx, &enc, Some(&musk));
+        let n_mal = if a.search { 60 } else { a.budget(24, 60) };
+        for _ in 0..n_mal {
+            let m = mutate_usk(&mut cx, &enc);
+            usk_decode_case(&mut cx, &m, None);
+        }
+
+        // addresses
+        let js = j_lattice(&mut cx, &uivk);
+        let mut lvls: Vec<Lvl> = vec![Lvl::Usk(usk.clone())];
+        lvls.extend(fsubs.iter().cloned().map(Lvl::Ufvk));
+        lvls.extend(isubs.iter().cloned().map(Lvl::Uivk));
+        if ki == 0 {
+            // exhaustive decision table on the first key: every IVK subset x every request x
+            // {valid, Sapling-invalid, transparent-invalid} index
+            let inv = js.iter().copied().find(|j| *j < 64 && *j > 1).unwrap_or(1);
+            for i in &isubs {
+                for r in &reqs {
+                    for j in [0u128, inv, 1u128 << 31] {
+                        addr_case(&mut cx, &Lvl::Uivk(i.clone()), net, j, r);
+                    }
+                }
+            }
+        }
+        for r in &reqs {
+            let reps = if a.search || a.thorough() { 6 } else { 3 };
+            for _ in 0..reps {
+                let l = cx.rng.pick(&lvls).clone();
+                let j = *cx.rng.pick(&js);
+                addr_case(&mut cx, &l, net, j, r);
+            }
+            let l = cx.rng.pick(&lvls).clone();
+            let j = *cx.rng.pick(&js);
+            find_case(&mut cx, &l, net, j, r);
+        }
+        // search across the transparent boundary and at the end of the index space
+        for r in &reqs {
+            if cx.rng.chance(1, 3) {
+                let d = cx.rng.below(3) as u128;
+                find_case(&mut cx, &Lvl::Uivk(uivk.clone()), net, (1 << 31) - 1 - d, r);
+            }
+            if cx.rng.chance(1, 3) {
+                let d = cx.rng.below(3) as u128;
+                find_case(&mut cx, &Lvl::Ufvk(ufvk.clone()), net, (1u128 << 88) - 1 - d, r);
+            }
+        }
+        legacy_cases(&mut cx, net, usk);
+    }
+    crypto_cases(&mut cx, &keys);
+    stat(format!(
+        "{{\"keys\": {}, \"requests\": {}, \"classes\": {}}}",
+        keys.len(),
+        cx.reqs.len(),
+        cx.st.json()
+    ));
+}
